@@ -149,6 +149,13 @@ Definition has_all_leaf (l : list leaf) : bool :=
 Definition has_all_sub (l : list (str * kind * tree)) : bool :=
   match rev l with x :: _ => is_all (snd (fst x)) | [] => false end.
 
+(* replace the sub-tree of the first child with the given key (the code mutates it in place) *)
+Fixpoint upd_sub (text : str) (st' : tree) (l : list (str * kind * tree)) : list (str * kind * tree) :=
+  match l with
+  | [] => []
+  | e :: l' => if str_eqb (fst (fst e)) text then (fst (fst e), snd (fst e), st') :: l' else e :: upd_sub text st' l'
+  end.
+
 (* addLeaf without the optional part *)
 (* the key of a segment: its text without the optional marker *)
 Definition seg_key (s : segment) : str := render_segment (mkseg false (elems s)).
@@ -196,7 +203,7 @@ Fixpoint add_segs (fuel : nat) (root : bool) (t : tree) (anc : list str) (anc_al
             match add_segs fuel' false st (kind_binds k ++ anc) (anc_all || is_all k) rest rid with
             | Some st' =>
                 match with_short ls with
-                | Some ls' => Some (Node (map (fun e => if str_eqb (fst (fst e)) text then (text, k, st') else e) sb) ls')
+                | Some ls' => Some (Node (upd_sub text st' sb) ls')
                 | None => None
                 end
             | None => None
